@@ -15,6 +15,7 @@
 #include <iostream>
 #include <map>
 #include <memory>
+#include <atomic>
 #include <mutex>
 #include <set>
 #include <sstream>
@@ -165,8 +166,12 @@ struct T : public TSharedComponentTag<T> {
     T() = default; explicit T(uint64_t x) : v{x} {}
     bool operator==(const T& o) const noexcept { return v == o.v; }
 };
+// U: equality is COARSER than byte identity (a bookkeeping field that `==` ignores and that differs in every instance the
+// harness builds): "equal values share one instance" is decided by the type's operator==, not by its representation
+inline uint64_t nextSharedNote() { static std::atomic<uint64_t> n{1}; return n.fetch_add(1); }
 struct U : public TSharedComponentTag<U> {
     uint64_t v = 0;
+    uint64_t note = nextSharedNote();
     U() = default; explicit U(uint64_t x) : v{x} {}
     bool operator==(const U& o) const noexcept { return v == o.v; }
 };
